@@ -397,16 +397,23 @@ def r16_9(ctx: Ctx) -> RuleResult:
                        construct=f"{name}: {short(c)}")
     # 2. every conversion of the final token in `to` happens under such a recogniser (or an isinstance int test)
     n = 0
+    from .common import expand_locals
+
+    def same(a: ast.expr, b: ast.expr) -> bool:
+        return ast.unparse(a) == ast.unparse(b) or ast.unparse(expand_locals(to.node, a)) == ast.unparse(expand_locals(to.node, b))
+
     for c in calls(to.node, "int"):
-        if not (isinstance(c.func, ast.Name) and len(c.args) == 1 and isinstance(c.args[0], ast.Subscript)):
+        if not (isinstance(c.func, ast.Name) and len(c.args) == 1):
             continue
+        full = expand_locals(to.node, c.args[0])
+        if not any(isinstance(x, ast.Subscript) for x in ast.walk(full)):
+            continue  # not a token of the pointer
         n += 1
-        subject = ast.unparse(c.args[0])
         guarded = False
         for t, b in path_conditions(to.node, c):
-            if b and isinstance(t, ast.Call) and callee_name(t) in recognisers and t.args and ast.unparse(t.args[0]) == subject:
+            if b and isinstance(t, ast.Call) and callee_name(t) in recognisers and t.args and same(t.args[0], c.args[0]):
                 guarded = True
-            if b and isinstance(t, ast.Call) and callee_name(t) == "isinstance" and ast.unparse(t.args[0]) == subject and ast.unparse(t.args[1]) == "int":
+            if b and isinstance(t, ast.Call) and callee_name(t) == "isinstance" and len(t.args) == 2 and same(t.args[0], c.args[0]) and ast.unparse(t.args[1]) == "int":  # noqa: PLR2004
                 guarded = True
         if guarded:
             rr.ok(to.loc(c), f"`{short(c)}` under the index recogniser")
